@@ -180,6 +180,7 @@ def _check(impl, scn_text, an=None):
         for c in conns:
             if c.result and c.result[0] == "ok" and isinstance(c.target, AccInc):
                 arr = c.arrival
+                if c.ambiguous: continue
                 if arr is None or arr.matched is None:
                     F.append(("c07-connect-without-accept", "%s.connect %s succeeded at t=%d but no accept on %s completed with it" % (c.sock, fmt_ep(c.dialled), c.result[1], c.target.name)))
 
@@ -218,7 +219,7 @@ def _check(impl, scn_text, an=None):
         if arr is None or inc is None: continue
         c = arr.conn
         exp_peer = scn.visible(c.local_known) if (c is not None and c.local_known) else (arr.frm if not arr.synthetic else None)
-        exp_local = c.dialled if c is not None else None
+        exp_local = c.dialled if (c is not None and not c.ambiguous) else None
         rem = [parse_ep(v) for (_, _, v) in inc.remotes if parse_ep(v) is not None]
         if comp.op.kind == "accept_ep":
             if comp.ep is None:
@@ -255,6 +256,7 @@ def _check(impl, scn_text, an=None):
     for inc in an.incs:
         if not inc.reads: continue
         if inc.peer is not None:
+            if inc.ambiguous or inc.peer.ambiguous: continue
             bad = check_reads(inc, wr(inc.peer))
             if bad:
                 msg, o, n, kind, val = bad
